@@ -128,7 +128,8 @@ PROPS["C07"] = dict(
          "extremes {0,255,256,2^31,2^63,2^64-1}, duplicate, junk injection, invalid UTF-8, reorder, random bytes) under random read "
          "segmentation, plus hostile data-phase streams (>255 MORE frames, extreme headers, command garbage, reserved flag bits, "
          "trickled frames at the limit); after every engine call: panic hook (process-wide) and buffer_len bound. (limits) frames of "
-         "limit-1/limit/limit+1 bytes against all six decoder entry points. (session) a hostile raw peer beside a healthy PUSH on a real "
+         "limit-1/limit/limit+1 bytes against all six decoder entry points and against engines after a ZMTP/2.0 handshake (listener, connector); "
+         "a frame larger than MAXMSGSIZE announced after the greeting and before READY must be refused at its header. (session) a hostile raw peer beside a healthy PUSH on a real "
          "PULL over tcp/ipc with the C01 oracle on the healthy stream. (pacing) silent / greeting-then-silent / drip-feeding peers against "
          "HANDSHAKE_IVL=500 ms, and MAX_CONNECTIONS slot release; a peer dripping one byte every 3 s and a greeting-then-silent peer against a "
          "listener whose HANDSHAKE_IVL is left at its default (gone within 40 s). distinct = (layer, config, mutation list / stream).",
